@@ -59,6 +59,11 @@ Scaled histories (pairwise: global scale x what happens between two runs on ONE 
 every scale 1e-12, 1e-9, 1e-6, 1e6, 1e12 (noise x scale^2), for every class / entry point /
 metric: run, {other member of the same shape and scale in place | nothing | scaled copy x2 |
 run on the other layout | refresh + iPu change}, run -- judged like every history.
+Re-layout histories: ONE object, run on a 6x6 (4x4) channel under one layout, then
+obj.num_users reassigned (alone | + iPu | + noise_var, pe), then the SAME channel content
+again | another content under another layout (6x6: 2x3, 3x2, 6x1; 4x4: 2x2, 4x1; every ordered
+pair) for both BlockDiagonalizer entry points, EnhancedBD None / naive / fixed / capacity and
+WhiteningBD; relations of the CURRENT layout + fresh-object differential.
 Zero external interference (pairwise: ext-int level x metric): pe in {0 (int), 0.0, 1e-12, 1}
 and an ext_int_pathloss that is exactly 0 for ONE user (first / last), x every metric x
 rank x layout; all B relations with the per-user interference rank.
@@ -790,6 +795,98 @@ def eval_history(chk, cls, init, seq, chans, scale=1.0):
 
 H_SCALES = (1e-12, 1e-9, 1e-6, 1e6, 1e12)
 
+# ---- re-layout histories: num_users (and other public attributes) reassigned BETWEEN two runs,
+# ---- on channels whose size admits several layouts, with the SAME content again or another one
+RELAYOUTS = {6: ((2, 3), (3, 2), (6, 1)), 4: ((2, 2), (4, 1))}
+RELAYOUT_VARIANTS = (("BlockDiagonalizer", "block_diagonalize", None), ("BlockDiagonalizer", "block_diagonalize_no_waterfilling", None),
+                     ("EnhancedBD", None, None), ("EnhancedBD", "naive", 1), ("EnhancedBD", "fixed", 1),
+                     ("EnhancedBD", "capacity", None), ("WhiteningBD", None, None))
+RELAYOUT_BETWEEN = ((), (("iPu", 2.5),), (("noise_var", 0.1), ("pe", 10.0)))
+
+
+def relayout_cases(tier):
+    for size, lays in RELAYOUTS.items():
+        for l1 in lays:
+            for l2 in lays:
+                if l1 == l2:
+                    continue
+                for same in (True, False):
+                    for bi in range(len(RELAYOUT_BETWEEN)):
+                        for vi in range(len(RELAYOUT_VARIANTS)):
+                            yield size, l1, l2, same, bi, vi
+
+
+def run_relayout(chk, size, l1, l2, same, bi, vi, case):
+    from pyphysim.comm import blockdiagonalization as bdm
+    cls, metric, ns = RELAYOUT_VARIANTS[vi]
+    between = RELAYOUT_BETWEEN[bi]
+    plain = cls == "BlockDiagonalizer"
+    cnoise = 0.1
+    contents = [np.hstack([families.generic(900 + size + 7 * m, (size, size), True, tag=9),
+                           families.generic(950 + size + 7 * m, (size, 1), True, tag=9)]) for m in (0, 1)]
+    cfg = dict(H_INIT)
+    (K1, n1), (K2, n2) = l1, l2
+    chk.outcome("relayout", (size, l1, l2, same, bi, cls, str(metric)))      # oracle side, before any call
+    if plain:
+        obj = bdm.BlockDiagonalizer(K1, cfg["iPu"], cfg["noise_var"])
+    elif cls == "WhiteningBD":
+        obj = bdm.WhiteningBD(K1, cfg["iPu"], cfg["noise_var"], cfg["pe"])
+    else:
+        obj = bdm.EnhancedBD(K1, cfg["iPu"], cfg["noise_var"], cfg["pe"])
+        apply_metric(obj, metric, ns)
+
+    def call(o, content, K, n):
+        if plain:
+            return getattr(o, metric)(content[:, :size])
+        return o.block_diagonalize_no_waterfilling(make_ext_channel(content, K, n, 1, cnoise))
+
+    buf = np.array(contents[0])
+    call(obj, buf, K1, n1)
+    chk.count("eval_relayout_events", 2 + len(between))
+    obj.num_users = K2                                   # public, settable attribute on HEAD
+    for a, v in between:
+        if plain and a == "pe":
+            continue
+        setattr(obj, a, v)
+        cfg[a] = v
+    if not same:
+        buf[:] = contents[1]                             # another channel in the caller's same buffer
+    cur = np.array(buf)
+    res = call(obj, buf, K2, n2)
+    saved = _copy_result(res)
+    how = "after_num_users" + "".join("+" + a for a, _ in between) + ("+same_channel" if same else "+other_channel")
+    if plain:
+        Hp = cur[:, :size]
+        sv = np.linalg.svd(Hp, compute_uv=False)
+        newH, Ms = res
+        check_plain(chk, Hp, K2, n2, cfg["iPu"], cfg["noise_var"], metric, newH, Ms,
+                    obj.calc_receive_filter(newH), case, float(sv[0] / sv[-1]), float(sv[0]),
+                    tag="[reused_object]")
+        fresh = getattr(bdm.BlockDiagonalizer(K2, cfg["iPu"], cfg["noise_var"]), metric)(np.array(Hp))
+    else:
+        kind = "whitening" if cls == "WhiteningBD" else "enhanced"
+        check_ext(chk, cur, K2, n2, 1, cnoise, cfg["pe"], cfg["iPu"], (kind, metric, ns), res, case,
+                  tag=("reused_object",))
+        if cls == "WhiteningBD":
+            fo = bdm.WhiteningBD(K2, cfg["iPu"], cfg["noise_var"], cfg["pe"])
+        else:
+            fo = bdm.EnhancedBD(K2, cfg["iPu"], cfg["noise_var"], cfg["pe"])
+            apply_metric(fo, metric, ns)
+        fresh = call(fo, np.array(cur), K2, n2)
+    if not _same_result(saved, fresh):
+        chk.fail((cls, "reused_object", "differs_from_fresh_object", how), case,
+                 observed="result differs", expected="bit-identical to a fresh object with num_users=%d and %r"
+                 % (K2, cfg))
+    chk.count("eval_relayout_runs_checked")
+    chk.nontriv(("R", size, l1, l2, same, bi, vi))
+
+
+def eval_relayout(chk, size, l1, l2, same, bi, vi):
+    case = {"part": "R", "size": size, "l1": list(l1), "l2": list(l2), "same": same, "between": bi, "variant": vi}
+    cls = RELAYOUT_VARIANTS[vi][0]
+    with chk.guard((cls, "reused_object", "relayout"), case):
+        run_relayout(chk, size, l1, l2, same, bi, vi, case)
+
 
 def scaled_hist_sequences(tier):
     """pairwise covering of {global channel scale} x {what happens between two runs on ONE object}:
@@ -1220,7 +1317,11 @@ def main(chk):
         "class_entry_point_metric": ["BlockDiagonalizer wf/no-wf", "WhiteningBD", "EnhancedBD x 7 metrics"],
         "external_interference_level": ["pe=0 (int)", "pe=0.0", "pe=1e-12", "pe=1", "ext_int_pathloss 0 for one user"],
         "metric": ["None", "naive/ns", "fixed/ns", "capacity", "effective_throughput", "whitening"],
-        "covered_pairs": ["scale x between-runs x class/metric (Part H scaled histories)",
+        "reconfiguration_between_runs": ["num_users", "num_users+iPu", "num_users+noise_var+pe"],
+        "channel_after_reconfiguration": ["same content", "other content"],
+        "layout_pairs": "6x6: 2x3,3x2,6x1; 4x4: 2x2,4x1 (all ordered pairs)",
+        "covered_pairs": ["layout pair x reconfiguration x same/other content x class/entry point/metric (re-layout histories)",
+                          "scale x between-runs x class/metric (Part H scaled histories)",
                           "ext-int level x metric x layout x rank (Part B zero family)",
                           "scale x family x iPu/noise (Part A/B scale families)"]}
 
@@ -1242,6 +1343,8 @@ def main(chk):
             eval_history(c, cls, init, seq, chans, scale)
         for job in shard(jobs_b_zero_extint(c.tier), i, nsh):
             run_job(c, job)
+        for rc in shard(relayout_cases(c.tier), i, nsh):
+            eval_relayout(c, *rc)
         for cls, cis, setup, runs, name in shard(live_scenarios(c.tier), i, nsh):
             eval_live(c, cls, cis, setup, runs, name, chans)
         for cls, ci, k in shard(error_cases(), i, nsh):
@@ -1270,6 +1373,7 @@ def main(chk):
     chk.require_outcomes("removal_required", 3)
     chk.require_outcomes("history_states", 20)
     chk.require_outcomes("history_x_scale", 30)
+    chk.require_outcomes("relayout", 100)
     chk.require_outcomes("zero_extint_x_metric", 12)
     chk.require_outcomes("invalid_call", 8)
 
@@ -1283,6 +1387,10 @@ def replay(case, chk):
             return tuple(e)
         eval_history(chk, case["cls"], tuple(ev(e) for e in case["init"]),
                      tuple(ev(e) for e in case["history"]), chans, float(case.get("scale", 1.0)))
+        return
+    if case["part"] == "R":
+        eval_relayout(chk, int(case["size"]), tuple(int(v) for v in case["l1"]), tuple(int(v) for v in case["l2"]),
+                      bool(case["same"]), int(case["between"]), int(case["variant"]))
         return
     if case["part"] in ("L", "E"):
         chans = {"A": np.asarray(case["HA"], dtype=complex), "B": np.asarray(case["HB"], dtype=complex)}
